@@ -395,8 +395,9 @@ class StubsStringGenerator:
             if attribute.type:
                 attribute_type = attribute.type.to_dict()
 
-                # Don't create TypeVar attributes
-                if attribute_type["kind"] == "TypeVarType":
+                # Don't create attributes for type variables that are defined in the class, but do create those which
+                # have a type variable as type
+                if attribute_type["kind"] == "TypeVarType" and attribute_type["name"] == attribute.name:
                     continue
 
             static_string = "static " if attribute.is_static else ""
